@@ -192,7 +192,8 @@ def mkReq (f : Fields) : Option Req := do
     else if sec.startsWith "s:" then do pure (some (.str (← hexToBytes? (sec.drop 2).toString)))
     else if sec.startsWith "b:" then do pure (some (.bytes (← hexToBytes? (sec.drop 2).toString)))
     else do pure (some (.str (← hexToBytes? sec)))
-  let signer : Option Signer := secArg.map fun a => { secret := (toBytes a).getD [], digest := dig }
+  -- `get_serializer`: an empty secret is no secret (`Serial.signerOf`)
+  let signer : Option Signer := signerOf secArg dig
   let secretOk : Bool := match secArg with
     | some a => (toBytes a).isSome
     | none => true
